@@ -25,10 +25,17 @@ structure DSt where
   names : Names
   /-- run the code as it was BEFORE fixes/D40, D-tree-1, D-tree-2 (`Model/TreeOld.lean`); switched by `#model old` -/
   old : Bool
+  /-- run the writer instance calls as they were BEFORE fixes/D33, D33b (`wopOld`); switched by `#inst old` -/
+  oldInst : Bool
+  /-- type token (`ki|kb|ni|nb`) of every topic name of the scenario (needed to validate filter expressions) -/
+  ttypes : List (String Ã— String)
 
-def defaultSt : DSt := { m := St.init .debug, names := Array.replicate NBUCKETS [], old := false }
+def defaultSt : DSt := { m := St.init .debug, names := Array.replicate NBUCKETS [], old := false, oldInst := false, ttypes := [] }
 
-def mstep (d : DSt) (op : Op) : St Ã— Res := if d.old then stepOld d.m op else DustVerif.Tree.step d.m op
+def mstep (d : DSt) (op : Op) : St Ã— Res :=
+  if d.old then stepOld d.m op
+  else if d.oldInst then stepInstOld d.m op
+  else DustVerif.Tree.step d.m op
 
 def bucketOf (n : String) : Nat := n.hash.toNat % NBUCKETS
 
@@ -111,6 +118,31 @@ def endQos (kv : List (String Ã— String)) (writer : Bool) : Option (Option Nat Ã
     | some d => if d > n then some (mi, false) else none   -- a finite max_spi that is consistent is not modelled
     | none => none
 
+/-- the INT32 members of the four test types -/
+def int32Member (ty member : String) : Bool :=
+  (member == "value" && (ty == "ki" || ty == "ni")) || (member == "id" && (ty == "ki" || ty == "kb"))
+
+def i32? (v : String) : Bool :=
+  match v.toInt? with
+  | some i => decide (-2147483648 â‰¤ i) && decide (i â‰¤ 2147483647)
+  | none => false
+
+/-- the validation of `create_content_filtered_topic` (participant_methods.rs): the text before the first `<=`
+    (or, when there is no `<=`, before the first `=`) must name an INT32 member of the related type and the first
+    expression parameter must parse as an i32 (the test types have no string members) -/
+def cftValid (ty params : String) (expr : List String) : Bool :=
+  let e := String.intercalate " " expr
+  let member : Option String :=
+    match e.splitOn "<=" with
+    | m :: _ :: _ => some m.trimAscii.toString
+    | _ => match e.splitOn "=" with
+      | m :: _ :: _ => some m.trimAscii.toString
+      | _ => none
+  let first : Option String := if params == "-" then none else (params.splitOn ",").head?
+  match member, first with
+  | some m, some p => int32Member ty m && i32? p
+  | _, _ => false
+
 def tyKeyed : String â†’ Option Bool
   | "ki" => some true
   | "kb" => some true
@@ -177,12 +209,14 @@ def prim (d : DSt) (ts : List String) : DSt Ã— String :=
   | ["topic", name, parent, tname, ty] =>
     match lookupName d parent, tyKeyed ty with
     | some (.part ph), some k =>
-      creation d name (.createTopic ph tname k) (fun h => .topic { ph := ph, name := tname } h)
+      let (d', o) := creation d name (.createTopic ph tname k) (fun h => .topic { ph := ph, name := tname } h)
+      (if o.startsWith "ok" then { d' with ttypes := (name, ty) :: d'.ttypes } else d', o)
     | _, _ => (d, "bad-op")
-  | "cft" :: name :: parent :: topic :: cname :: _params :: _ :: _ =>
+  | "cft" :: name :: parent :: topic :: cname :: params :: e :: es =>
     match lookupName d parent, lookupName d topic with
     | some (.part _), some (.topic r _) =>
-      let (m', res) := mstep d (.createCft r cname)
+      let ty := ((d.ttypes.find? (fun p => p.1 == topic)).map (Â·.2)).getD ""
+      let (m', res) := mstep d (.createCft r cname (cftValid ty params (e :: es)))
       match res with
       | .ok => ({ d with m := m', names := bind d name (.cft cname r) }, "ok")
       | _ => ({ d with m := m' }, showRes true res)
@@ -316,10 +350,12 @@ def step (d : DSt) (line : String) : DSt Ã— String :=
             let (d', os) := runRepeat d bodies 0 n
             (d', String.intercalate ";" os)
         | none => (d, "bad-op")
-      -- `#model old|fixed`, `#profile release|debug`: comments for the harness (which is whatever build of whatever
+      -- `#model old|fixed`, `#inst old|fixed`, `#profile release|debug`: comments for the harness (which is whatever build of whatever
       -- tree it is), switches for the model: the code before / after the patches, wrapping / checked arithmetic
       | ["#model", "old"] => ({ d with old := true }, "ok")
       | ["#model", "fixed"] => ({ d with old := false }, "ok")
+      | ["#inst", "old"] => ({ d with oldInst := true }, "ok")
+      | ["#inst", "fixed"] => ({ d with oldInst := false }, "ok")
       | ["#profile", "release"] => ({ d with m := { d.m with profile := .release } }, "ok")
       | ["#profile", "debug"] => ({ d with m := { d.m with profile := .debug } }, "ok")
       | t :: _ => if t.startsWith "#" then (d, "ok") else prim d ts
